@@ -47,7 +47,9 @@ CHECKS = {
                   "K={0,1,2,3,7,8,9,55,56,57,63,64,65,119,120,121,127,128,129}), HMAC-SHA256 (key lengths 32, 65), PBKDF2 mini grid (2x3x2x4), CRC32C fixed point "
                   "(3 contents, L<=150, K={0..5,7,8,9,15,16,17,23,24,25,31,32,33,63,64,65} x alignments 0..15), AES block (every 8th single-bit key + boundary keys x "
                   "every 16th single-bit block + boundary blocks), crypto_aesctr_buf (7 lengths), AES-CTR fixed point (positions [0,560] u [4032,4160], "
-                  "K={0,1,15,16,17,32,33,256,257}, nonces {2^64-1, 0x0123456789abcdef}, 2 keys, init2 edges, 4 buffer variants, LCG content)",
+                  "K={0,1,15,16,17,32,33,256,257}, nonces {2^64-1, 0x0123456789abcdef}, 2 keys, init2 edges, 4 buffer variants, LCG content), "
+                  "3 single CRC32C_Update calls of 2^32+d bytes, and - where AES-NI is built and reported - 2 selftest-fault configurations (allocation #1 / #2 of "
+                  "the first AES use fails once, so the library's self-test disables AES-NI while the CPU reports it) each followed by block, one-shot and stream comparisons",
             thorough="the same 135 pairs, each with: SHA-256 (3 contents, L<=600, sizes 0..130), HMAC-SHA256 (13 key lengths, 3 contents, L<=300, sizes 0..130), "
                      "PBKDF2 quick grid of C01, CRC32C (L<=300, sizes {0..40,63,64,65} x 16 alignments) and the complete quick tier of C02 (block, one-shot, stream)"),
         explanation="sum over all (build, run-time) pairs of the C01/C02 counters: states = raw context / stream-object states, transitions = real "
@@ -64,10 +66,11 @@ CLAIMS = {
         text="For every subset of {SHA-NI+SSSE3, SSE2, SSE4.2 (64- and 32-bit crc32), AES-NI} compiled in and every subset of those reported present at run "
              "time, a fresh process runs the explicit-state searches of C01 (SHA-256, HMAC-SHA256, PBKDF2, CRC32C at all 16 alignments, sizes on both sides of "
              "the 8-byte threshold) and C02 (AES block, AES-CTR with sizes on both sides of 16 and switches between bulk and portable code inside one stream) "
-             "against the same independent oracles (OpenSSL digests, GF(2) long division, own FIPS-197 AES). Equality of all paths follows from equality of "
+             "against the same independent oracles (OpenSSL digests, GF(2) long division, own FIPS-197 AES); where AES-NI is selected the pair is run again with the "
+             "library's own AES-NI self-test made to fail by a transient allocation failure (fallback to software inside a process whose CPU reports AES-NI). Equality of all paths follows from equality of "
              "each with the specification. The shims verify per pair that the intended path was selected and really entered.",
         note="Trusted: as C01/C02, plus the forcing of the cpusupport globals. Not covered: ARM paths; real CPUs lacking a feature (emulated by the flags only). "
-             "A fault that makes the library's own one-vector self-test fail disables the path at run time; the check reports that as an engine error (path not exercised), not as a pass.",
+             "A fault that makes the library's own one-vector self-test fail disables the path at run time; outside the selftest-fault configurations (where it is injected on purpose and the fallback is required) the check reports that as an engine error (path not exercised), not as a pass.",
         technique="configuration enumeration (build x run-time feature subsets) of explicit-state model checking against independent oracles",
         engine="es"),
 }
